@@ -146,6 +146,10 @@ def scn_geometry_fallbacks(c):
         if opened:
             c.check('file fallback only when the text is not JSON and the path exists', len(exists) == 1)
             c.check('file fallback reads the file named by the argument', opened[0][1].s is s)
+            jl = [e for e in ev if e[0] == 'json.load']
+            src = getattr(shapes[0][1], 'info', {}) if shapes else {}
+            c.check('file fallback: the argument of shape() is the JSON document of that file as written (parsed by json.load; no rounding, no re-building of the geometry)',
+                    len(jl) == 1 and len(shapes) == 1 and getattr(shapes[0][1], 'what', None) == 'json' and src.get('source') is jl[0][1] and not src.get('rounded'))
     else:
         c.check('every failure is an ArgumentTypeError (argparse turns it into exit status 2 and a message)',
                 exc_matches(val, argparse.ArgumentTypeError))
